@@ -124,6 +124,8 @@ reference 0; changing the formula of `c2` leaves its denotation untouched. -/
 example : CallsIn (fun n => n = (0, [.int 7])) (C08.gEnv.formula (0, [.int 7])) ∧
     ReadsIn (fun r => r = 0) (C08.gEnv.formula (0, [.int 7])) := by
   simp [C08.gEnv, C08.gCells, formulaOf, compile, arith, CallsIn, ReadsIn]
-  constructor <;> intro v <;> cases v <;> simp [CallsIn, ReadsIn]
+  constructor <;> intro o <;> cases o with
+    | none => simp [CallsIn, ReadsIn]
+    | some v => cases v <;> simp [CallsIn, ReadsIn]
 
 end MxModel.C02
